@@ -633,6 +633,13 @@ def plan(ctx, rng):
         alt_ops = [(o, st) for o in ("create", "drop", "gc-dead", "host-drop", "equal-copy", "equal-diff", "display-port",
                                      "host-display", "gc-live", "send-channel") for st in ("main", "thread")]
         alt_sizes = [100000, 1000000]
+    # which kind is outermost decides which drop implementation starts: the reversed order too, for the operations that discard
+    rev = ["alt:%s+%s" % (b, a) for i, a in enumerate(base_kinds) for b in base_kinds[i + 1:]]
+    for n in alt_sizes:
+        for shape in rev:
+            for op, st in ([("drop", "thread"), ("gc-dead", "main")] if quick else
+                           [(o, st) for o in ("create", "drop", "gc-dead", "host-drop") for st in ("main", "thread")]):
+                cases.append((shape, op, n, st, 6 if quick else (30 if n <= 100000 else 90), quick))
     for n in alt_sizes:
         for shape in alts:
             for op, st in alt_ops:
@@ -643,7 +650,7 @@ def plan(ctx, rng):
                 cases.append((shape, op, n, st, 6 if quick else (30 if n <= 100000 else 90), quick))
     if quick:
         # the deepest tier for a few alternations of kinds that each have an iterative drop of their own
-        for shape in ("alt:list+ivec", "alt:struct+list+mvec", "alt:ivec+map-value+list", "alt:list+ivec+pair-car"):
+        for shape in ("alt:list+ivec", "alt:ivec+list", "alt:struct+list+mvec", "alt:ivec+map-value+list", "alt:list+ivec+pair-car"):
             for op, st in (("drop", "thread"), ("gc-dead", "main"), ("equal-copy", "thread")):
                 cases.append((shape, op, 1000000, st, 30, False))
     # a sample of the same operations as module-level code of a required file
